@@ -3,7 +3,7 @@
    store invariant "every stored key is a serialised peer of the swarm's own
    family" (TrackerP) and the response writers. *)
 From Chihaya Require Import Model.Tracker Proofs.SwarmP Proofs.SpecP Proofs.MemP Proofs.RedisP Proofs.TrackerP Proofs.UdpWriteP.
-From Chihaya Require Proofs.HttpWriteP.
+From Chihaya Require Proofs.HttpWriteP Proofs.SourceIPP.
 From Coq Require Import ZifyBool ZifyNat Lia.
 Open Scope Z_scope.
 
@@ -357,6 +357,50 @@ Proof.
   split; [intros H; by apply completed_moves|]. split.
   - intros H. destruct (stopped_removes a clock (run_spec ops) H) as (H1 & H2 & _). by split.
   - intros ih. apply announce_other_family_untouched.
+Qed.
+
+(* ---- C11 on the wire: an accepted UDP announce datagram registers its peer under the address the property names -
+   the transport source address when spoofing is off (whatever the IP field says) or the field is zero, the
+   client-supplied field when spoofing is on and the field is not zero - and the swarm afterwards lists exactly that key *)
+Lemma handle_udp_announce_parse mac k skew clock o ip packet txid v6a r q :
+  UdpParse.handle_udp mac k skew clock o ip packet = UdpParse.UAnnounce txid v6a r q →
+  UdpParse.parse_announce v6a o (Some ip) packet = UdpParse.Accept (r, q).
+Proof.
+  unfold UdpParse.handle_udp. destruct (ConnID.dispatch_request _ _ _ _ _ _) as [| | |a tx]; try discriminate.
+  destruct (a =? _).
+  - destruct (UdpParse.parse_scrape _ _); try discriminate. destruct (_ ip); discriminate.
+  - destruct (UdpParse.parse_announce _ _ _ _) as [[r' q']|e|] eqn:E; try discriminate.
+    intros [= <- <- <- <-]. exact E.
+Qed.
+
+Theorem udp_announce_registers_address mac t u ops clock ip packet txid v6a r q :
+  Forall sop_sane ops → wf_bytes packet = true → wf_bytes ip = true → (length ip = 4 ∨ length ip = 16)%nat →
+  UdpParse.handle_udp mac (uc_key u) (uc_skew u) clock (uc_opts u) ip packet = UdpParse.UAnnounce txid v6a r q →
+  let a := ann_of_areq r in
+  let field := sub 84 (UdpParse.ip_end v6a) packet in
+  (* the address in the key *)
+  (UdpParse.o_spoof (uc_opts u) = false ∨ UdpParse.all_zero field = true → p_ip (a_peer a) = SourceIPP.stored_form ip) ∧
+  (UdpParse.o_spoof (uc_opts u) = true → UdpParse.all_zero field = false → p_ip (a_peer a) = SourceIPP.stored_form field) ∧
+  (* ... and that key is what the store lists afterwards *)
+  ∃ sp' d, udp_step spec_if mac t u (run_spec ops) clock ip packet = Some (sp', [d]) ∧
+    let sw := swarm_of sp' (a_ih a) (a_v6 a) in
+    (a_event a ≠ EvStopped → seeders sw !! a_key a = Some clock ∨ leechers sw !! a_key a = Some clock).
+Proof.
+  intros Hs Hpw Hipw Hip E a field.
+  pose proof (handle_udp_announce_parse _ _ _ _ _ _ _ _ _ _ _ E) as P.
+  split; [|split].
+  - intros [Ns|Z0].
+    + by destruct (SourceIPP.udp_registered_nospoof _ _ _ _ _ _ Ns P).
+    + by destruct (SourceIPP.udp_registered_zero_is_source _ _ _ _ _ _ Z0 P).
+  - intros Sp Nz. by destruct (SourceIPP.udp_registered_spoof_nonzero _ _ _ _ _ _ Sp Nz P).
+  - destruct (udp_announce_membership mac t u ops clock ip packet txid v6a r q Hs Hpw Hipw Hip E)
+      as (sp' & d & Estep & M1 & M2 & M3 & _).
+    exists sp', d. split; [exact Estep|]. cbn zeta. fold a in M1, M2, M3 |- *. intros Hev.
+    destruct (a_event a) eqn:Ev.
+    + destruct (Z.eq_dec (a_left a) 0) as [L|L]; [left; apply M1; [by left|exact L]|right; apply M2; [by left|exact L]].
+    + destruct (Z.eq_dec (a_left a) 0) as [L|L]; [left; apply M1; [by right|exact L]|right; apply M2; [by right|exact L]].
+    + done.
+    + left. by destruct (M3 eq_refl).
 Qed.
 
 (* ---- C02 at the level of the response hook, for any store state: the peers of an announce response are the
